@@ -1,3 +1,324 @@
 package main
 
-func (d *driver) stageTrace() {}
+import (
+	"bufio"
+	"fmt"
+	"os"
+	"path"
+	"path/filepath"
+	"regexp"
+	"sort"
+	"strings"
+	"time"
+
+	"verifharness/gal"
+)
+
+// ---- strace -> the model's trace alphabet ---------------------------------------
+
+var (
+	reLine       = regexp.MustCompile(`^(\d+)\s+(.*)$`)
+	reUnfinished = regexp.MustCompile(`^(.*) <unfinished \.\.\.>$`)
+	reResumed    = regexp.MustCompile(`^<\.\.\. (\w+) resumed>(.*)$`)
+	reCall       = regexp.MustCompile(`^(\w+)\((.*)\)\s+= (-?\d+)(.*)$`)
+	reQuoted     = regexp.MustCompile(`"((?:[^"\\]|\\.)*)"`)
+	reFdPath     = regexp.MustCompile(`^(\d+)<([^>]*)>`)
+)
+
+type sysEvent struct {
+	kind  string // mkdir create write close stat symlink unlink
+	rel   string // path relative to the repository's cache dir
+	rel2  string // symlink: destination
+	found bool   // stat: success; symlink: false = EEXIST
+}
+
+// parseStrace merges unfinished/resumed lines and returns the completed calls
+// in completion order.
+func parseStrace(file string) ([]string, error) {
+	f, err := os.Open(file)
+	if err != nil {
+		return nil, err
+	}
+	defer f.Close()
+	pending := map[string]string{}
+	var out []string
+	sc := bufio.NewScanner(f)
+	sc.Buffer(make([]byte, 1<<20), 1<<24)
+	for sc.Scan() {
+		m := reLine.FindStringSubmatch(sc.Text())
+		if m == nil {
+			continue
+		}
+		pid, rest := m[1], m[2]
+		if u := reUnfinished.FindStringSubmatch(rest); u != nil {
+			pending[pid] = u[1]
+			continue
+		}
+		if r := reResumed.FindStringSubmatch(rest); r != nil {
+			rest = pending[pid] + r[2]
+			delete(pending, pid)
+		}
+		out = append(out, rest)
+	}
+	return out, sc.Err()
+}
+
+// abstractTrace turns the calls that touch the repository's cache directory
+// into events, grouped by cache directory (one protocol instance each).
+func (d *driver) abstractTrace(calls []string, cache string) map[string][]sysEvent {
+	root := filepath.Join(cache, d.w.cacheRepoDir()) + "/"
+	relOf := func(p string) (string, bool) {
+		if strings.HasPrefix(p, root) {
+			return strings.TrimPrefix(p, root), true
+		}
+		return "", false
+	}
+	dirOf := func(rel string) string {
+		parts := strings.Split(rel, "/")
+		if len(parts) >= 2 {
+			return parts[0] + "/" + parts[1]
+		}
+		return rel
+	}
+	groups := map[string][]sysEvent{}
+	add := func(e sysEvent) { g := dirOf(e.rel); groups[g] = append(groups[g], e) }
+	wfd := map[string]bool{}            // fd number -> opened for writing (below the cache)
+	lastStat := map[string]sysEvent{}   // per directory: last stat of an advertised-looking name
+	for _, c := range calls {
+		m := reCall.FindStringSubmatch(c)
+		if m == nil {
+			continue
+		}
+		name, args, ret, tail := m[1], m[2], m[3], m[4]
+		switch name {
+		case "mkdirat", "mkdir":
+			q := reQuoted.FindStringSubmatch(args)
+			if q == nil || ret != "0" {
+				continue
+			}
+			if rel, ok := relOf(q[1]); ok && strings.Contains(path.Base(rel), "expand-apk") {
+				add(sysEvent{kind: "mkdir", rel: rel})
+			}
+		case "openat", "open":
+			q := reQuoted.FindStringSubmatch(args)
+			if q == nil {
+				continue
+			}
+			rel, ok := relOf(q[1])
+			if !ok || strings.HasPrefix(ret, "-") {
+				continue
+			}
+			w := strings.Contains(args, "O_CREAT") || strings.Contains(args, "O_WRONLY") || strings.Contains(args, "O_RDWR")
+			wfd[ret] = w
+			if strings.Contains(args, "O_CREAT") {
+				// the path actually opened (through a symlink if any) is in the fd annotation
+				if fp := reFdPath.FindStringSubmatch(ret + tail); fp != nil {
+					if r2, ok := relOf(fp[2]); ok {
+						rel = r2
+					}
+				}
+				add(sysEvent{kind: "create", rel: rel})
+			}
+		case "write", "pwrite64", "writev":
+			fp := reFdPath.FindStringSubmatch(args)
+			if fp == nil {
+				continue
+			}
+			if rel, ok := relOf(fp[2]); ok {
+				add(sysEvent{kind: "write", rel: rel})
+			}
+		case "close":
+			fp := reFdPath.FindStringSubmatch(args)
+			if fp == nil {
+				continue
+			}
+			if rel, ok := relOf(fp[2]); ok {
+				if wfd[fp[1]] {
+					add(sysEvent{kind: "close", rel: rel})
+				}
+				delete(wfd, fp[1])
+			}
+		case "newfstatat", "stat", "lstat", "statx":
+			q := reQuoted.FindStringSubmatch(args)
+			if q == nil {
+				continue
+			}
+			if rel, ok := relOf(q[1]); ok {
+				base := path.Base(rel)
+				if reMember.MatchString(base) || reIndex.MatchString(base) {
+					lastStat[dirOf(rel)] = sysEvent{kind: "stat", rel: rel, found: ret == "0"}
+				}
+			}
+		case "symlinkat", "symlink":
+			qs := reQuoted.FindAllStringSubmatch(args, -1)
+			if len(qs) < 2 {
+				continue
+			}
+			dst, ok := relOf(qs[1][1])
+			if !ok {
+				continue
+			}
+			src := path.Clean(path.Join(path.Dir(dst), qs[0][1]))
+			eexist := strings.Contains(tail, "EEXIST")
+			if ret != "0" && !eexist {
+				continue
+			}
+			ls := lastStat[dirOf(dst)]
+			if ls.rel == dst {
+				add(ls)
+			} else {
+				add(sysEvent{kind: "stat", rel: "?no-stat-of-destination-before-symlink/" + dst, found: false})
+			}
+			add(sysEvent{kind: "symlink", rel: src, rel2: dst, found: !eexist})
+		case "unlinkat", "unlink":
+			q := reQuoted.FindStringSubmatch(args)
+			if q == nil {
+				continue
+			}
+			if rel, ok := relOf(q[1]); ok {
+				if ls, ok := lastStat[dirOf(rel)]; ok {
+					add(ls)
+				}
+				add(sysEvent{kind: "unlink", rel: rel})
+			}
+		case "rename", "renameat", "renameat2", "linkat", "link", "ftruncate", "truncate":
+			// not part of the protocol: make the trace unacceptable
+			qs := reQuoted.FindAllStringSubmatch(args, -1)
+			for _, q := range qs {
+				if rel, ok := relOf(q[1]); ok {
+					add(sysEvent{kind: "create", rel: "?unexpected-" + name + "/" + rel})
+					break
+				}
+			}
+		}
+	}
+	return groups
+}
+
+func (d *driver) tevTerm(ctx *absCtx, e sysEvent) string {
+	p, _ := ctx.pathTerm(e.rel)
+	switch e.kind {
+	case "mkdir":
+		return "(TMkdir " + p + ")"
+	case "create":
+		return "(TCreate " + p + ")"
+	case "write":
+		return "(TWrite " + p + ")"
+	case "close":
+		return "(TClose " + p + ")"
+	case "stat":
+		return fmt.Sprintf("(TStat %s %s)", p, gal.Bool(e.found))
+	case "unlink":
+		return "(TRemove " + p + ")"
+	case "symlink":
+		q, _ := ctx.pathTerm(e.rel2)
+		return fmt.Sprintf("(TSymlink %s %s %s)", p, q, gal.Bool(!e.found))
+	}
+	return "(TCreate (PDir \"?\"))"
+}
+
+// emitTraces writes one trace case per cache directory that saw protocol
+// events in this process. Consecutive writes to one file are collapsed (their
+// number is not compared anyway).
+func (d *driver) emitTraces(what string, rev int, stfile, cache string) int {
+	calls, err := parseStrace(stfile)
+	if err != nil || len(calls) == 0 {
+		fmt.Fprintf(os.Stderr, "strace unusable (%v, %d calls)\n", err, len(calls))
+		os.Exit(2)
+	}
+	groups := d.abstractTrace(calls, cache)
+	var dirs []string
+	for g := range groups {
+		dirs = append(dirs, g)
+	}
+	sort.Strings(dirs)
+	n := 0
+	for _, g := range dirs {
+		evs := groups[g]
+		hasProto := false
+		for _, e := range evs {
+			if e.kind == "create" || e.kind == "symlink" || e.kind == "unlink" || e.kind == "mkdir" {
+				hasProto = true
+			}
+		}
+		if !hasProto {
+			continue
+		}
+		ctx := d.w.newCtx()
+		ctx.fixed = 0
+		var builder string
+		if g == idir {
+			builder = fmt.Sprintf("(BIndex %s %s)", gal.Str(idir), gal.Str(d.w.revs[rev].b32))
+		} else {
+			var found bool
+			for _, b := range d.w.revs[rev].repo.Built[arch] {
+				if pdirOf(b) == g {
+					builder = fmt.Sprintf("(BPackage %s %s)", gal.Str(g), apkTerm(b))
+					found = true
+				}
+			}
+			if !found {
+				builder = fmt.Sprintf("(BIndex %s %s)", gal.Str("?unknown-directory"), gal.Str(g))
+			}
+		}
+		var terms []string
+		nw, kinds := 0, map[string]int{}
+		var prev sysEvent
+		for _, e := range evs {
+			kinds[e.kind]++
+			if e.kind == "write" {
+				nw++
+				if prev.kind == "write" && prev.rel == e.rel {
+					continue
+				}
+			}
+			prev = e
+			terms = append(terms, d.tevTerm(ctx, e))
+		}
+		d.out.Add(gal.Case{
+			Term:  fmt.Sprintf("(CTrace {| tc_tab := tab; tc_owner := 0; tc_builder := %s; tc_trace := %s |})", builder, gal.List(terms)),
+			Desc:  map[string]any{"exp": "trace", "what": what, "dir": g, "events": kinds, "write_calls": nw},
+			Class: "trace/" + what,
+			Key:   what + "/" + g + fmt.Sprint(n),
+		})
+		n++
+	}
+	return n
+}
+
+func (d *driver) stageTrace() {
+	total := 0
+	// a cold multi-package build (index + 5 packages expanded concurrently inside the process)
+	pk := []string{"app", "plain", "solo"}
+	cache := d.newCache()
+	d.w.setRev(0)
+	st := filepath.Join(d.w.root, fmt.Sprintf("strace-%d.out", d.ncache))
+	r := d.w.run(runSpec{Cache: cache, Pkgs: pk, Strace: st})
+	d.checkBuild("strace cold build", 0, pk, cache, r, map[string]any{"exp": "trace"})
+	total += d.emitTraces("cold", 0, st, cache)
+	// the repository moved on: only what changed is populated again, in the same directories
+	st2 := filepath.Join(d.w.root, fmt.Sprintf("strace-%d-b.out", d.ncache))
+	d.w.setRev(1)
+	r = d.w.run(runSpec{Cache: cache, Pkgs: pk, Strace: st2})
+	d.checkBuild("strace build after update", 1, pk, cache, r, map[string]any{"exp": "trace"})
+	total += d.emitTraces("after-update", 1, st2, cache)
+	// builder A is held before its first AdvertiseCachedFile while B populates
+	// everything: A then finds every destination present and removes its copies
+	spk := []string{"solo"}
+	c2 := d.newCache()
+	d.w.setRev(0)
+	wf := filepath.Join(d.w.root, fmt.Sprintf("waitT-%d", d.ncache))
+	st3 := filepath.Join(d.w.root, fmt.Sprintf("strace-%d.out", d.ncache))
+	cmdA, resA := d.w.command(runSpec{Cache: c2, Pkgs: spk, WaitAt: "pkg.pre-advertise-ctl#1", WaitF: wf, Strace: st3})
+	tA := time.Now()
+	if err := cmdA.Start(); err == nil {
+		waitFor(wf+".reached", 30*time.Second)
+		rB := d.w.run(runSpec{Cache: c2, Pkgs: spk})
+		d.checkBuild("trace: B while A is held", 0, spk, c2, rB, map[string]any{"exp": "trace"})
+		os.WriteFile(wf, nil, 0o644)
+		rA := finish(cmdA, resA, tA)
+		d.checkBuild("trace: A after B populated", 0, spk, c2, rA, map[string]any{"exp": "trace"})
+		total += d.emitTraces("loser-removes", 0, st3, c2)
+	}
+	d.stats["trace_cases"] = total
+}
